@@ -487,6 +487,20 @@ func (vm *VM) fieldByIndex(s reflect.Value, i uint8) reflect.Value {
 	return v
 }
 
+// arrayOfPointer returns the array pointed by v if v is a pointer to an
+// array, otherwise it returns v. The elements of an array indexed, sliced or
+// assigned through a pointer are those of the pointed array, not of a copy.
+// It panics with errNilPointer if v is a nil pointer to an array.
+func (vm *VM) arrayOfPointer(v reflect.Value) reflect.Value {
+	if v.Kind() == reflect.Pointer && v.Type().Elem().Kind() == reflect.Array {
+		if v.IsNil() {
+			panic(errNilPointer)
+		}
+		return v.Elem()
+	}
+	return v
+}
+
 func (vm *VM) finalize(regs [][2]int8) {
 	for _, reg := range regs {
 		vm.setFromReflectValue(reg[1], vm.generalIndirect(reg[0]))
